@@ -794,6 +794,107 @@ def ob_degenerate_rates(kind, label, x0):
     return Ob("C12.subst.gradient[%s,%s]" % (kind, label), "B", body, clause="gradient = derivative of the reported value where the rate matrix has repeated eigenvalues", funcs=FUNCS)
 
 
+def _subst_partial_problems(kind, estimated):
+    """gradients of p_t w.r.t. the parameters that are estimated while the others are held fixed (requires_grad False): fixing one parameter
+    must not change the derivative w.r.t. another. `estimated`: subset of {"rates", "frequencies"}"""
+    from torchtree.core.parameter import Parameter
+    from torchtree.evolution.substitution_model.nucleotide import GTR, HKY
+    t64 = lambda v: torch.tensor(v, dtype=torch.float64)
+    z0 = [0.2, -0.3, 0.5]                      # frequencies through a softmax of unconstrained coordinates (an interior point, no constraint to respect)
+    r0 = [2.5] if kind == "HKY" else [0.5, 1.0, 1.5, 0.7, 2.0, 1.1]
+    bl = t64([[0.1], [0.7]])
+    w = t64([[0.3, -0.2, 0.5, 0.1], [0.2, 0.4, -0.1, 0.6], [0.7, 0.1, 0.2, -0.3], [-0.4, 0.5, 0.3, 0.2]])
+
+    def value(r, z):
+        f = torch.softmax(torch.cat((z, torch.zeros(1, dtype=torch.float64))), 0)
+        m = HKY("m", Parameter("k", r), Parameter("f", f)) if kind == "HKY" else GTR("m", Parameter("r", r), Parameter("f", f))
+        return (m.p_t(bl) * w).sum()
+    r = t64(r0).requires_grad_("rates" in estimated)
+    z = t64(z0).requires_grad_("frequencies" in estimated)
+    value(r, z).backward()
+    bad, n = [], 0
+    h = 1e-6
+    for name, x, x0 in (("rates", r, r0), ("frequencies (softmax coordinates)", z, z0)):
+        if not x.requires_grad:
+            continue
+        for i in range(len(x0)):
+            e = torch.zeros(len(x0), dtype=torch.float64)
+            e[i] = h
+            with torch.no_grad():
+                if name == "rates":
+                    fd = float(value(t64(r0) + e, t64(z0)) - value(t64(r0) - e, t64(z0))) / (2 * h)
+                else:
+                    fd = float(value(t64(r0), t64(z0) + e) - value(t64(r0), t64(z0) - e)) / (2 * h)
+            n += 1
+            g = None if x.grad is None else float(x.grad[i])
+            if g is None or not (g == g) or abs(g - fd) > 1e-6 * max(1.0, abs(fd)):
+                bad.append("d/d %s[%d]: autograd %r, central difference of the reported value %.8f" % (name, i, g, fd))
+    return bad, n
+
+
+def ob_subst_partial(kind, estimated):
+    label = "%s,estimated=%s" % (kind, "+".join(estimated))
+
+    def body():
+        bad, n = _subst_partial_problems(kind, estimated)
+        if bad:
+            raise Refuted("%s with %s estimated and the rest held fixed: %s" % (kind, " and ".join(estimated), "; ".join(bad[:3])), witness={"problems": bad[:8]}, confirmed=True,
+                          replay={"kind": "custom", "contract": "C12", "func": "replay_subst_partial", "args": {"kind": kind, "estimated": list(estimated)}})
+        return {"backend": "real autograd", "cases": n, "statement": "%s: %d partial derivatives agree with central differences" % (label, n)}
+    return Ob("C12.subst.gradient.partial[%s]" % label, "B", body, clause="gradient = derivative of the reported value w.r.t. the estimated parameters while others are held fixed", funcs=FUNCS)
+
+
+def replay_subst_partial(args):
+    bad, _ = _subst_partial_problems(args["kind"], tuple(args["estimated"]))
+    return (False, "; ".join(bad[:3])) if bad else (True, "held")
+
+
+def _bdsk_times_problems(relative):
+    """the rate-shift times of the skyline are parameters like the others: when they are estimated they receive the derivative of the value"""
+    import torchtree.evolution.bdsk as bd
+    t64 = lambda v: torch.tensor(v, dtype=torch.float64)
+    h = t64([0.0, 0.7, 0.0, 1.4, 0.3, 2.1, 2.9, 3.6, 4.4])      # 5 tips (heterochronous), 4 internal heights
+    origin = 6.0
+    t0 = [0.0, 0.25, 0.6] if relative else [0.0, 1.5, 3.6]
+
+    def value(times):
+        d = bd.PiecewiseConstantBirthDeath(t64([2.0, 1.5, 2.4]), t64([1.0, 0.8, 1.1]), t64([0.5, 0.3, 0.6]), rho=t64([0.3]), origin=t64([origin]),
+                                           times=times, relative_times=relative, survival=True)
+        return d.log_prob(h).sum()
+    times = t64(t0).requires_grad_(True)
+    v = value(times)
+    if v.requires_grad:
+        v.backward()
+    # (a value that does not require grad although the times do: the graph to the times is cut, their gradient is missing)
+    bad, n = [], 0
+    for i in (1, 2):
+        e = torch.zeros(3, dtype=torch.float64)
+        e[i] = 1e-6
+        with torch.no_grad():
+            fd = float(value(t64(t0) + e) - value(t64(t0) - e)) / 2e-6
+        n += 1
+        g = None if times.grad is None else float(times.grad[i])
+        if g is None or not (g == g) or abs(g - fd) > 1e-5 * max(1.0, abs(fd)):
+            bad.append("d/d times[%d]: autograd %r, central difference of the reported value %.8f" % (i, g, fd))
+    return bad, n
+
+
+def ob_bdsk_times(relative):
+    def body():
+        bad, n = _bdsk_times_problems(relative)
+        if bad:
+            raise Refuted("birth-death skyline with estimated %s rate-shift times: %s" % ("relative" if relative else "absolute", "; ".join(bad)), witness={"problems": bad}, confirmed=True,
+                          replay={"kind": "custom", "contract": "C12", "func": "replay_bdsk_times", "args": {"relative": relative}})
+        return {"backend": "real autograd", "cases": n, "statement": "%d derivatives w.r.t. the rate-shift times agree with central differences" % n}
+    return Ob("C12.bdsk.gradient.times[%s]" % ("relative" if relative else "absolute"), "B", body,
+              clause="no parameter that influences the value receives a missing gradient (rate-shift times of the skyline)", funcs=FUNCS)
+
+
+def replay_bdsk_times(args):
+    bad, _ = _bdsk_times_problems(bool(args["relative"]))
+    return (False, "; ".join(bad)) if bad else (True, "held")
+
+
 def ob_bdsk_zero_sampling_epoch():
     """birth-death skyline with an epoch in which the sampling proportion is exactly 0 and no tip was sampled (no sampling before a date: a
     boundary value of the parameter that specifications use): the gradient of the other parameters is the derivative of the reported
@@ -884,6 +985,11 @@ def obligations(tier, seed):
         obs.append(ob_parameter_json_gradient(form))
     for label in _GROWTH_GRAD_CASES:
         obs.append(ob_growth_gradient(label))
+    for kind in ("HKY", "GTR"):
+        for estimated in (("rates",), ("frequencies",), ("rates", "frequencies")):
+            obs.append(ob_subst_partial(kind, estimated))
+    for relative in (False, True):
+        obs.append(ob_bdsk_times(relative))
     for which in ("skyline", "constant"):
         for delta in (1, 20, 25, 31, 60):
             obs.append(ob_bd_gradient_range(which, delta))
